@@ -596,6 +596,58 @@ func (c *Ctx) randomNumberRules(r *Report, prefix string) {
 				}
 			}
 		}
+		if n == 0 {
+			// 2^n - 1 computed: g.Lsh(one, n) then g.Sub(&g, one) with one = big.NewInt(1), the only two calls that
+			// write g, both in init, in this order
+			var writers []*ssa.Call
+			inInit := true
+			for _, fn := range c.ModFuncs {
+				for _, b := range fn.Blocks {
+					for _, ins := range b.Instrs {
+						call, ok := ins.(*ssa.Call)
+						if !ok || call.Call.IsInvoke() || len(call.Call.Args) == 0 || call.Call.Args[0] != ssa.Value(bd.g) {
+							continue
+						}
+						cal := call.Call.StaticCallee()
+						if cal == nil || !strings.HasPrefix(cal.String(), "(*math/big.Int).") {
+							continue
+						}
+						if res := cal.Signature.Results(); res.Len() >= 1 && strings.HasSuffix(res.At(0).Type().String(), "big.Int") {
+							writers = append(writers, call)
+							if !isInitFunc(fn) {
+								inInit = false
+							}
+						}
+					}
+				}
+			}
+			isOne := func(v ssa.Value) bool {
+				call := staticCallTo(v, "math/big.NewInt")
+				if call == nil {
+					return false
+				}
+				k, ok := call.Call.Args[0].(*ssa.Const)
+				if !ok {
+					return false
+				}
+				kv, _ := constInt64(k.Value)
+				return kv == 1
+			}
+			if len(writers) == 2 && inInit {
+				lsh, sub := writers[0], writers[1]
+				if lsh.Call.StaticCallee().Name() == "Sub" {
+					lsh, sub = sub, lsh
+				}
+				if lsh.Call.StaticCallee().Name() == "Lsh" && sub.Call.StaticCallee().Name() == "Sub" && dominatesInstr(lsh, sub) &&
+					isOne(lsh.Call.Args[1]) && sub.Call.Args[1] == ssa.Value(bd.g) && isOne(sub.Call.Args[2]) {
+					if k, ok := lsh.Call.Args[2].(*ssa.Const); ok {
+						if kv, _ := constInt64(k.Value); kv == bd.reps*4 {
+							okC, n = true, 1
+						}
+					}
+				}
+			}
+		}
 		r.Check(okC && n == 1, rule, "security."+bd.g.Name()+" = "+bd.what, c.Pos(bd.g.Pos()), fmt.Sprintf("set once, in init, to SetString(strings.Repeat(\"F\", %d), 16)", bd.reps), "the bound is not set exactly once in init to "+bd.what)
 	}
 	// rule 4: CalculateDiffieHellmanMaterials
